@@ -747,6 +747,25 @@ pub fn f6_rec_programs() -> Vec<Program> {
             get(content(app("quad", vec![a1.clone(), a2.clone()]))),
         ]));
     }
+    // instantiations in different resources (each resource is its own evaluation tree)
+    {
+        let args = [num(), str_(), arr(num()), obj(vec![prop("a", num())]), app("tree", vec![num()]), app("tree", vec![str_()])];
+        for a in args.iter() {
+            for b in args.iter() {
+                programs.push(single(vec![
+                    tree.clone(),
+                    get(content(app("tree", vec![a.clone()]))),
+                    get_at("b", content(app("tree", vec![b.clone()]))),
+                ]));
+            }
+        }
+        programs.push(single(vec![
+            tree.clone(),
+            get(content(app("tree", vec![num()]))),
+            get_at("b", content(app("tree", vec![str_()]))),
+            get_at("c", content(obj(vec![prop("k", app("tree", vec![num()])), prop("l", app("tree", vec![arr(str_())]))]))),
+        ]));
+    }
     // a closed top-level rec used from different function scopes
     programs.push(single(vec![
         let_("t", recs[0].clone()),
@@ -804,6 +823,79 @@ pub fn f6_rec_programs() -> Vec<Program> {
         });
     }
     programs
+}
+
+// --- F11: recursion terms --------------------------------------------------------------------
+
+/// Every closed schema term of exactly `size` constructors over
+/// leaves {num, a rec variable in scope}, unary {[T], {'a T}, rec x T, rec y T, list T, i T}
+/// and binary {{'a T, 'b T}}, where `list v = rec n {'value v, 'next n}` and `i z = z`.
+fn rec_terms(size: usize, scope: &[&str]) -> Vec<E> {
+    let mut out = Vec::new();
+    if size == 1 {
+        out.push(num());
+        for v in scope {
+            out.push(var(v));
+        }
+        return out;
+    }
+    for t in rec_terms(size - 1, scope) {
+        out.push(arr(t.clone()));
+        out.push(obj(vec![prop("a", t.clone())]));
+        out.push(app("list", vec![t.clone()]));
+        out.push(app("i", vec![t]));
+    }
+    for b in ["x", "y"] {
+        let mut inner: Vec<&str> = scope.to_vec();
+        if !inner.contains(&b) {
+            inner.push(b);
+        }
+        for t in rec_terms(size - 1, &inner) {
+            out.push(E::Rec(b.into(), Box::new(t)));
+        }
+    }
+    for l in 1..size.saturating_sub(1) {
+        let r = size - 1 - l;
+        if r == 0 {
+            continue;
+        }
+        let rs = rec_terms(r, scope);
+        for t1 in rec_terms(l, scope) {
+            for t2 in rs.iter() {
+                out.push(obj(vec![prop("a", t1.clone()), prop("b", t2.clone())]));
+            }
+        }
+    }
+    out
+}
+
+/// F11: every closed recursion term of up to `max` constructors, used directly in a resource
+/// and through a declaration used by two resources.
+pub fn f11(max: usize) -> Fragment {
+    let mut programs = Vec::new();
+    let list = fun(
+        "list",
+        &["v"],
+        E::Rec("n".into(), Box::new(obj(vec![prop("value", var("v")), prop("next", var("n"))]))),
+    );
+    let id = fun("i", &["z"], var("z"));
+    for size in 2..=max {
+        for t in rec_terms(size, &[]) {
+            programs.push(single(vec![list.clone(), id.clone(), get(content(t.clone()))]));
+            programs.push(single(vec![
+                list.clone(),
+                id.clone(),
+                let_("t", t),
+                get(content(var("t"))),
+                get_at("b", content(arr(var("t")))),
+            ]));
+        }
+    }
+    Fragment {
+        name: "F11 recursion terms",
+        well_kinded: false,
+        programs,
+    }
 }
 
 // --- F7: @references ---------------------------------------------------------------------------
@@ -1122,6 +1214,46 @@ pub fn f9() -> Fragment {
         markp("c", false, ann(num(), "required: true")),
         markp("d", true, ann(num(), "required: false")),
     ])))]));
+    // `required` given by the schema, the mark and the property annotation, in every position
+    // that reads it (object member, query, transfer parameter, request and response header)
+    for sa in [None, Some("required: true"), Some("required: false")] {
+        for mark in [None, Some(true), Some(false)] {
+            for pa in [None, Some("required: true"), Some("required: false")] {
+                for declared in [false, true] {
+                    let leaf = |n: E| match sa {
+                        Some(a) => ann(n, a),
+                        None => n,
+                    };
+                    let (mut st, schema) = if declared {
+                        (vec![match sa {
+                            Some(a) => let_ann("tok", a, str_()),
+                            None => let_("tok", str_()),
+                        }], var("tok"))
+                    } else {
+                        (vec![], leaf(str_()))
+                    };
+                    let base = match mark {
+                        Some(m) => markp("k", m, schema.clone()),
+                        None => prop("k", schema.clone()),
+                    };
+                    let p = match pa {
+                        Some(a) => ann(E::Paren(Box::new(base)), a),
+                        None => base,
+                    };
+                    st.push(Stmt::Res(rel(
+                        E::Uri(vec![Seg::Lit("a".into())], Some(vec![p.clone()])),
+                        vec![E::Xfer {
+                            methods: vec![Method::Post],
+                            params: Some(vec![prop("z", num()), p.clone()]),
+                            domain: Some(Box::new(E::Content(vec![(Meta::Headers, obj(vec![p.clone()]))], Some(Box::new(obj(vec![p.clone()])))))),
+                            range: Box::new(E::Content(vec![(Meta::Headers, obj(vec![p.clone()]))], Some(Box::new(obj(vec![p.clone(), prop("o", num())]))))),
+                        }],
+                    )));
+                    programs.push(single(st));
+                }
+            }
+        }
+    }
     // contents: description, examples
     for a in ["description: dc", "examples: {e1: u1, e2: u2}", "description: dc, examples: {e: u}"] {
         let c = content(obj(vec![prop("p", num())]));
@@ -1317,7 +1449,7 @@ pub fn f10() -> Fragment {
     }
 }
 
-pub const NAMES: [&str; 10] = [
+pub const NAMES: [&str; 11] = [
     "F1 schema algebra",
     "F2 contents and ranges",
     "F3 transfers and relations",
@@ -1328,10 +1460,11 @@ pub const NAMES: [&str; 10] = [
     "F8 modules",
     "F9 annotations",
     "F10 collisions",
+    "F11 recursion terms",
 ];
 
 /// Fragments whose next bound is explored by the thorough tier.
-pub const HAS_NEXT_BOUND: [usize; 5] = [0, 1, 2, 3, 5];
+pub const HAS_NEXT_BOUND: [usize; 6] = [0, 1, 2, 3, 5, 10];
 
 pub fn fragment(i: usize, thorough: bool) -> Fragment {
     match i {
@@ -1344,6 +1477,7 @@ pub fn fragment(i: usize, thorough: bool) -> Fragment {
         6 => f7(),
         7 => f8(),
         8 => f9(),
-        _ => f10(),
+        9 => f10(),
+        _ => f11(if thorough { 5 } else { 4 }),
     }
 }
